@@ -112,7 +112,7 @@ pub fn run(tier: Tier, rep: &mut Report) -> (String, String) {
     let mut r0 = Report::default();
     conversions(&mut r0, tier);
     rep.merge(r0);
-    let n = tier.pick(5, 6, 2);
+    let n = tier.pick(6, 7, 2);
     let strings = strings_over(&["a", "ñ", "€", "😀"], n);
     rep.merge(par_each(&strings, th, |s, r| {
         one_string(r, s, None, &None);
